@@ -971,8 +971,41 @@ func checkReadsFollowChain(w *World, r *Report) {
 		reader[f] = true
 	}
 	failing := map[*ssa.Lookup]string{}
+	// delegates: functions without a lookup of their own that hand back what a reader (or another
+	// delegate) returns — GetVariable once its plain-name case has moved into a helper
+	delegates := func() map[*ssa.Function]bool {
+		out := map[*ssa.Function]bool{}
+		for grew := true; grew; {
+			grew = false
+			for _, g := range w.pkgFuncs() {
+				if out[g] || hasSite[g] {
+					continue
+				}
+				instrsOf(g, func(in ssa.Instruction) {
+					ret, ok := in.(*ssa.Return)
+					if !ok || out[g] {
+						return
+					}
+					for _, res := range ret.Results {
+						v := res
+						if ex, ok := v.(*ssa.Extract); ok {
+							v = ex.Tuple
+						}
+						if c, ok := v.(*ssa.Call); ok {
+							if h := c.Call.StaticCallee(); h != nil && h != g && (reader[h] || out[h]) {
+								out[g] = true
+								grew = true
+							}
+						}
+					}
+				})
+			}
+		}
+		return out
+	}
 	for changed := true; changed; {
 		changed = false
+		deleg := delegates()
 		for _, s := range sites {
 			if !reader[s.fn] {
 				continue
@@ -984,7 +1017,7 @@ func checkReadsFollowChain(w *World, r *Report) {
 					}
 				}
 				if c, ok := in.(ssa.CallInstruction); ok {
-					if g := c.Common().StaticCallee(); g != nil && reader[g] && g != s.fn {
+					if g := c.Common().StaticCallee(); g != nil && (reader[g] || deleg[g]) && g != s.fn {
 						return true
 					}
 					if g := c.Common().StaticCallee(); g != nil && g == s.fn {
